@@ -107,16 +107,40 @@ def run(ctx):
             expected="{'vendor_id': vid.bytes, 'class_id': cid.bytes, 'role': role}", found=repr(val)[:300])
     fr = repo.func(IMG, "EnvelopeStorage._find_role")
     fouts = [o for o in ev.outcomes(fr) if o.kind == "return"]
-    ok = False
     found = ""
     lookup_key = App("meth:hex", (Sym("param:class_id"),))
-    for g, t in [c for o in fouts for c in cases(o.value)]:
-        found += repr(t)[:100] + "; "
-        if t == App("idx", (App("idx", (container, lookup_key)), Const("role"))):
-            ok = True
-    R.check("C13-D1d role table", ok, "lookup by class_id.hex() in the same table (UUID.hex == UUID.bytes.hex())", mod=fr.module,
-            node=fr.node, function=ctx.fq(fr), expected="self._assignments[class_id.hex()]['role']", found=found[:300])
-    miss = any(t == Const(None) for o in fouts for g, t in cases(o.value))
+    got_entry = App("meth:get", (container, lookup_key))
+    # "the class id is in the table", in the spellings of a membership test or of a .get() that found something
+    present = {generic.norm_cond(App("in", (lookup_key, container))): True, App("is not", (got_entry, Const(None))): True,
+               App("is", (got_entry, Const(None))): False, got_entry: True}
+
+    def subst(t):
+        if t == got_entry or t == App("meth:get", (container, lookup_key, Const(None))):
+            return App("idx", (container, lookup_key))
+        if isinstance(t, App):
+            return App(t.op, [subst(a_) for a_ in t.args], t.node)
+        return t
+    want_role = App("idx", (App("idx", (container, lookup_key)), Const("role")))
+    hit, miss, other = False, False, []
+    for o in fouts:
+        for g, t in cases(o.value):
+            found += repr(t)[:100] + "; "
+            pol = set()
+            for c_, v_ in list(g.items()) + [(c2, True) for c2 in o.conds]:
+                c_ = generic.norm_cond(c_)
+                while isinstance(c_, App) and c_.op == "not" and len(c_.args) == 1:
+                    c_, v_ = c_.args[0], not v_
+                c_ = App(c_.op, [App("meth:get", (container, lookup_key)) if a_ == App("meth:get", (container, lookup_key, Const(None))) else a_ for a_ in c_.args], c_.node) \
+                    if isinstance(c_, App) else c_
+                pol.add(present[c_] == v_ if c_ in present else None)
+            if subst(t) == want_role and pol == {True}:
+                hit = True
+            elif t == Const(None) and pol == {False}:
+                miss = True
+            else:
+                other.append(repr(t)[:80])
+    R.check("C13-D1d role table", hit and not other, "lookup by class_id.hex() in the same table (UUID.hex == UUID.bytes.hex())", mod=fr.module,
+            node=fr.node, function=ctx.fq(fr), expected="self._assignments[class_id.hex()]['role'] when the class id is in the table", found=found[:300])
     R.check("C13-D1d role table", miss, "an unknown class id maps to no role", mod=fr.module, node=fr.node, function=ctx.fq(fr),
             expected="None when the key is absent", found=found[:200])
 
@@ -370,6 +394,8 @@ def kconfig_rules(ctx, ev):
     # and the scan over the earlier entries is complete (no break / return leaves it early)
     R.rule("C13-D2c duplicate pair rejected", 2, "a vendor/class pair given to two roles raises before it is recorded; every earlier entry is compared")
 
+    any_scans = []
+
     def equalities(conds):
         out = []
         for c in conds:
@@ -378,6 +404,11 @@ def kconfig_rules(ctx, ev):
                 x = todo.pop()
                 if isinstance(x, App) and x.op == "and":
                     todo.extend(x.args)
+                elif isinstance(x, App) and x.op == "call:any" and len(x.args) == 1 and isinstance(x.args[0], App) \
+                        and x.args[0].op in ("comp:gen", "comp:list") and len(x.args[0].args) == 3:
+                    # any(<test of item> for item in <earlier entries>): the test holds for some earlier entry
+                    any_scans.append(x.args[0])
+                    todo.append(x.args[0].args[0])
                 elif isinstance(x, App) and x.op == "==":
                     out.append(x)
                 elif isinstance(x, App) and x.op == "not" and isinstance(x.args[0], App) and x.args[0].op == "!=":
@@ -406,6 +437,12 @@ def kconfig_rules(ctx, ev):
             found="no such rejecting path")
     scans = [n for n in ast.walk(fi.node) if isinstance(n, ast.For) and any(isinstance(x, ast.Raise) for x in ast.walk(n))
              and not any(isinstance(x, ast.For) and x is not n and any(isinstance(y, ast.Raise) for y in ast.walk(x)) for x in ast.walk(n))]
+    if ok and not scans and any_scans:
+        # written as any(… for item in entries): every earlier entry is compared unless the generator filters some out
+        filtered = [c_ for c_ in any_scans if c_.args[2].args]
+        R.check("C13-D2c duplicate pair rejected", not filtered, "the scan compares every earlier entry", mod=fi.module, node=fi.node, function=fq,
+                expected="any(<both names equal> for item in <all earlier entries>)", found="the generator skips some of the earlier entries")
+        return
     if len(scans) != 1:
         raise AnalysisError(f"{fq}: scan over the earlier entries not recognised ({len(scans)})")
     early = [x for x in ast.walk(scans[0]) if isinstance(x, (ast.Break, ast.Return))]
